@@ -1,5 +1,6 @@
 import CaoModel.Driver.StackEngine
 import CaoModel.Driver.MapEngine
+import CaoModel.Driver.ValueEngine
 open Cao Cao.Driver
 
 structure DState where
@@ -7,12 +8,15 @@ structure DState where
   bstack : Option (BStack Nat) := none
   hm : HmState := {}
   ht : HtState := {}
+  tbl : TblState := {}
 
 def step (d : DState) (line : String) : DState × String :=
   match line.trimAscii.toString.splitOn " " with
   | "stack" :: args => let (s, o) := stackStep d.stack args; ({ d with stack := s }, o)
   | "bstack" :: args => let (s, o) := bstackStep d.bstack args; ({ d with bstack := s }, o)
   | "hm" :: args => let (s, o) := hmStep d.hm args; ({ d with hm := s }, o)
+  | "val" :: args => (d, valStep args)
+  | "tbl" :: args => let (s, o) := tblStep d.tbl args; ({ d with tbl := s }, o)
   | "ht" :: args => let (s, o) := htStep d.ht args; ({ d with ht := s }, o)
   | _ => (d, "bad-op")
 
